@@ -19,7 +19,7 @@ SPEC = {
             "catch handler of an unrelated exception / destructor on normal scope exit / destructor during stack unwinding "
             "of an unrelated exception (failure caught inside the destructor) / second thread started from an unwinding "
             "destructor; verdict, file, line, message, what() must equal the direct context's. errno is poisoned before "
-            "every call. Call sites on lines 999..2147483000 (#line) under a digit-grouping global locale: what() must contain file, message and the plain decimal line. Second TU (optional build): expect_raises with E in {plain struct, derived plain struct, std::string, int, type with ambiguous std::exception base, virtual-base and diamond types, exception, runtime_error, logic_error} x fn in {returns, throws each of ten exotic/standard types}, is-a from an explicit table cross-checked against real catch clauses. distinct_nontrivial = distinct (relation, operand type, order shape, expected "
+            "every call. Call sites on lines 999..2147483000 (#line) under a digit-grouping global locale: what() must contain file, message and the plain decimal line. Operands with side effects (counter call, x++, --x, counting functor, invoked lambda, StringReader::get_u8) as first/second operand of every macro: evaluated exactly once, verdict from that evaluation. expect/expect_msg with 55 non-bool predicates (fractions, denormals, NaN, __int128 and 64-bit values with zero low bits, pointers, enums, implicit-bool class). Second TU (optional build): expect_raises with E in {plain struct, derived plain struct, std::string, int, type with ambiguous std::exception base, virtual-base and diamond types, exception, runtime_error, logic_error} x fn in {returns, throws each of ten exotic/standard types}, is-a from an explicit table cross-checked against real catch clauses. distinct_nontrivial = distinct (relation, operand type, order shape, expected "
             "outcome) and (E, behaviour of fn, expected outcome) cells observed.",
     "level_text": "The input space of the statement is finite once the operand sets and the exception hierarchy are fixed, and "
                   "it is enumerated completely: every relation x operand-pair cell and all 130 expect_raises cells are "
@@ -42,9 +42,12 @@ SPEC = {
         # E = int alone: a header that requires E to be a class type breaks only this one.
         {"name": "c19_exotic_int", "sources": ["c19_exotic.cc"], "variant": "asan", "shards": (2, 4), "timeout": (600, 3600),
          "extra_cxx": ["-O0", "-DC19_EXOTIC_INT"], "optional_build": True},
+        # pointer-kind predicates of expect()/expect_msg(): same reason, own optional stage
+        {"name": "c19_exotic_ptrpred", "sources": ["c19_exotic.cc"], "variant": "asan", "shards": (2, 4), "timeout": (600, 3600),
+         "extra_cxx": ["-O0", "-DC19_EXOTIC_PTRPRED", "-Wno-unused-function"], "optional_build": True},
     ],
     "min_evaluations": 50000,
-    "min_classes": {"quick": 440, "thorough": 440},
+    "min_classes": {"quick": 500, "thorough": 500},
     "required_classes": [
         "rel:eq:int:*", "rel:ge:int:equal:holds", "rel:ge:int:less:fails", "rel:gt:int:equal:fails", "rel:le:double:unordered:fails",
         "rel:ne:double:unordered:holds", "rel:lt:string:less:holds", "rel:eq:string:equal:holds", "rel:le:uint64:greater:fails",
@@ -67,6 +70,12 @@ SPEC = {
         "bigline:expect_eq:line>=1000:fails", "bigline:expect_ge:line>=1000:fails", "bigline:expect_ne:line>=1e6:fails",
         "bigline:expect_msg:line>=1e6:fails", "bigline:expect_raises:line>=1000:fails", "bigline:expect_raises:line>=1e9:fails",
         "bigline:expect_raises:line>=1e9:holds", "bigline:expect:line<1000:fails",
+        "side:counter_call:first:fails", "side:counter_call:second:fails", "side:post_increment:first:holds", "side:pre_decrement:second:fails",
+        "side:counting_functor:first:fails", "side:invoked_lambda:second:fails", "side:reader_get_u8:first:fails", "side:reader_get_u8:second:holds",
+        "side-macro:expect_eq:first", "side-macro:expect_lt:second", "side-macro:expect:first", "side-macro:expect_msg:second",
+        "pred:double:truthy", "pred:double:falsy", "pred:float:truthy", "pred:long-double:truthy", "pred:int128:truthy", "pred:int128:falsy",
+        "pred:uint64:truthy", "pred:pointer:truthy", "pred:pointer:falsy", "pred:enum:truthy", "pred:function-pointer:truthy", "pred:c-string:truthy", "pred:c-string:falsy",
+        "pred:implicit-bool-class:falsy",
         "raises-exotic:plain-struct:must-pass", "raises-exotic:plain-struct:must-fail", "raises-exotic:derived-plain-struct:must-pass",
         "raises-exotic:std.string:must-pass", "raises-exotic:ambiguous-std-base:must-pass", "raises-exotic:runtime_error:must-pass",
         "raises-exotic:exception:either", "raises-exotic:virtual-std-base:must-pass", "raises-exotic:diamond-virtual-std-base:must-pass",
